@@ -154,12 +154,14 @@ class Gen:
         return {"op": "NONE_OR_RELU", "min": None, "max": None}
 
     # ---- operations (spec dicts)
-    def conv_like(self, kind):
+    def conv_like(self, kind, force=None):
         r = self.rng
+        force = force or {}
         oh, ow = self.rand_hw()
         dtype = self.rdtype(("INT8", "UINT8", "INT16"))
         kh, kw = int(r.choice([1, 1, 2, 3, 3, 5, 7, 9])), int(r.choice([1, 1, 2, 3, 3, 5, 7]))
         sy, sx = int(r.choice([1, 1, 1, 2, 3])), int(r.choice([1, 1, 1, 2, 3]))
+        oh, ow, kh, kw, sy = force.get("oh", oh), force.get("ow", ow), force.get("kh", kh), force.get("kw", kw), force.get("sy", sy)
         dy, dx = (int(r.choice([1, 1, 2])), int(r.choice([1, 1, 2]))) if kind != "pool" else (1, 1)
         up = 1
         if kind in ("conv", "pool", "depthwise") and sy == sx == 1 and r.integers(0, 5) == 0:
@@ -188,7 +190,7 @@ class Gen:
             else:
                 ih, iw = ih // 2, iw // 2
                 upmode = str(r.choice(["NEAREST", "TRANSPOSE"]))
-        oc = int(r.choice([1, 4, 8, 16, 24, 33]))
+        oc = force.get("oc", int(r.choice([1, 4, 8, 16, 24, 33])))
         ic = oc if kind in ("depthwise", "pool") else int(r.choice([1, 3, 8, 16, 17, 32]))
         sub = None
         if kind == "pool":
